@@ -9,10 +9,24 @@ the observable tie model ≙ implementation is `Check.l1`.)
 namespace Verif.Twin
 open Verif Verif.Proto
 
+/-- `kfs`: signatures of differences that are listed as known findings (reported, not fatal here;
+the orchestrator checks each signature against `/verif/known_findings.json`) -/
 inductive Verdict
-  | ok (compared : Nat)
+  | ok (compared : Nat) (kfs : List String)
   | fail (ev : Nat) (detail : String)
   deriving Repr
+
+def isEager : Kind → Bool
+  | .utmap | .utset => true
+  | _ => false
+
+/-- equal except for what counts unreaped expired entries: `size()`, `empty()`, the result of
+`clean_expired_values()` -/
+def sameButSize (a b : Event) : Bool :=
+  a.obs.cap == b.obs.cap && a.obs.sweep == b.obs.sweep &&
+  (a.out == b.out || (match a.op with | .size | .empty | .clean => true | _ => false))
+
+def addKf (k : String) (l : List String) : List String := if l.contains k then l else k :: l
 
 def isTtl : Kind → Bool
   | .tlru | .utlru | .utmap | .utset => true
@@ -32,10 +46,13 @@ def aggregate (op : Op) (singles : List Event) : Option Out :=
     some (.opts (singles.map (fun e => match e.out with | .opt o => o | _ => none)))
   | _ => none
 
-/-- C18: instance 0 got range calls (tag `@g<n>`), instance 1 the same elements as single calls -/
-def c18Loop : Nat → Nat → List Event → List Event → Verdict
-  | _, n, [], _ => .ok n
-  | fuel + 1, n, e0 :: r0, l1 =>
+/-- C18: instance 0 got range calls (tag `@g<n>`), instance 1 the same elements as single calls.
+In ut_map/ut_set a difference confined to `size()`/`empty()` has signature `c18-eager-size`
+(known findings: an empty range call still purges; with TTL 0 the single calls purge each other's
+writes). -/
+def c18Loop (kind : Kind) : Nat → Nat → List String → List Event → List Event → Verdict
+  | _, n, kf, [], _ => .ok n kf
+  | fuel + 1, n, kf, e0 :: r0, l1 =>
     if e0.tag.startsWith "@g" then
       let grp := l1.takeWhile (fun e => e.tag == e0.tag)
       let r1 := l1.dropWhile (fun e => e.tag == e0.tag)
@@ -44,20 +61,24 @@ def c18Loop : Nat → Nat → List Event → List Event → Verdict
       | some agg =>
         if agg != e0.out then .fail n s!"range result {showOut e0.out} vs singles {showOut agg}"
         else match grp.getLast? with
-          | none => c18Loop fuel (n + 1) r0 r1
+          | none => c18Loop kind fuel (n + 1) kf r0 r1
           | some last =>
-            if sameObs last.obs e0.obs then c18Loop fuel (n + 1) r0 r1
+            if sameObs last.obs e0.obs then c18Loop kind fuel (n + 1) kf r0 r1
+            else if isEager kind && last.obs.cap == e0.obs.cap && last.obs.sweep == e0.obs.sweep then
+              c18Loop kind fuel (n + 1) (addKf "c18-eager-size" kf) r0 r1
             else .fail n s!"state after range [{showEv e0}] vs after singles [{showEv last}]"
     else match l1 with
       | [] => .fail n "twin stream ended early"
       | e1 :: r1 =>
         if e0.op != e1.op then .fail n "streams out of step"
-        else if e0.out == e1.out && sameObs e0.obs e1.obs then c18Loop fuel (n + 1) r0 r1
+        else if e0.out == e1.out && sameObs e0.obs e1.obs then c18Loop kind fuel (n + 1) kf r0 r1
+        else if isEager kind && sameButSize e0 e1 then
+          c18Loop kind fuel (n + 1) (addKf "c18-eager-size" kf) r0 r1
         else .fail n s!"later call differs: range twin [{showEv e0}] singles twin [{showEv e1}]"
-  | 0, n, _, _ => .ok n
+  | 0, n, kf, _, _ => .ok n kf
 
-def c18 (evs : List Event) : Verdict :=
-  c18Loop (evs.length + 1) 0 (evs.filter (·.inst == 0)) (evs.filter (·.inst == 1))
+def c18 (kind : Kind) (evs : List Event) : Verdict :=
+  c18Loop kind (evs.length + 1) 0 [] (evs.filter (·.inst == 0)) (evs.filter (·.inst == 1))
 
 /-- did a spliced call have no effect, judged by its result? -/
 def noEffect (e : Event) : Bool :=
@@ -70,41 +91,53 @@ def noEffect (e : Event) : Bool :=
   | .erase _, .bool false => true
   | _, _ => false
 
-/-- outputs that C19 lets differ in TTL containers: `size()`/`empty()` and the result of an erase or an
-update-only insert (they may be addressed to an entry that had already expired) -/
-def ttlExempt (e : Event) : Bool :=
+/-- calls whose *result* C19 lets differ in TTL containers because they may be addressed to an entry
+that had already expired when the spliced call ran: an erase, an update-only insert -/
+def ttlLatitude (e : Event) : Bool :=
   match e.op with
-  | .size | .empty | .erase _ | .eraseRange _ => true
+  | .erase _ | .eraseRange _ => true
   | .insert _ _ .update _ => true
   | .insertRange _ .update => true
   | _ => false
 
-def c19Same (kind : Kind) (a b : Event) : Bool :=
-  if isTtl kind then
-    (ttlExempt a || a.out == b.out) && a.obs.cap == b.obs.cap && a.obs.sweep == b.obs.sweep
-  else a.out == b.out && sameObs a.obs b.obs
+def isSizeOp (e : Event) : Bool :=
+  match e.op with
+  | .size | .empty => true
+  | _ => false
 
-/-- C19: instance 1 = instance 0 with no-effect calls (tag `@x`) spliced in -/
-def c19Loop (kind : Kind) : Nat → Nat → List Event → List Event → Verdict
-  | _, n, [], _ => .ok n
-  | fuel + 1, n, e0 :: r0, l1 =>
+/-- C19: instance 1 = instance 0 with no-effect calls (tag `@x`) spliced in.
+TTL containers: `size()`/`empty()` are not compared; when an erase or update-only insert returns
+differently on the two sides the property's latitude has been used and the states may legitimately
+differ from there on, so the comparison ends; a `clean_expired_values()` count that differs while
+everything else agrees has signature `c19-clean-count` (known finding). -/
+def c19Loop (kind : Kind) : Nat → Nat → List String → List Event → List Event → Verdict
+  | _, n, kf, [], _ => .ok n kf
+  | fuel + 1, n, kf, e0 :: r0, l1 =>
     match l1 with
     | [] => .fail n "twin stream ended early"
     | e1 :: r1 =>
       if e1.tag == "@x" then
         -- a spliced call that did have an effect ends the comparable part of the script
-        if noEffect e1 then c19Loop kind fuel n (e0 :: r0) r1 else .ok n
+        if noEffect e1 then c19Loop kind fuel n kf (e0 :: r0) r1 else .ok n kf
       else if e0.op != e1.op then .fail n "streams out of step"
-      else if c19Same kind e0 e1 then c19Loop kind fuel (n + 1) r0 r1
-      else .fail n s!"shared call differs: plain [{showEv e0}] spliced [{showEv e1}]"
-  | 0, n, _, _ => .ok n
+      else if !isTtl kind then
+        if e0.out == e1.out && sameObs e0.obs e1.obs then c19Loop kind fuel (n + 1) kf r0 r1
+        else .fail n s!"shared call differs: plain [{showEv e0}] spliced [{showEv e1}]"
+      else if ttlLatitude e0 && e0.out != e1.out then .ok n kf
+      else
+        let rest := e0.obs.cap == e1.obs.cap && e0.obs.sweep == e1.obs.sweep
+        if rest && (e0.out == e1.out || isSizeOp e0) then c19Loop kind fuel (n + 1) kf r0 r1
+        else if rest && (match e0.op with | .clean => true | _ => false) then
+          c19Loop kind fuel (n + 1) (addKf "c19-clean-count" kf) r0 r1
+        else .fail n s!"shared call differs: plain [{showEv e0}] spliced [{showEv e1}]"
+  | 0, n, kf, _, _ => .ok n kf
 
 def c19 (kind : Kind) (evs : List Event) : Verdict :=
-  c19Loop kind (2 * evs.length + 1) 0 (evs.filter (·.inst == 0)) (evs.filter (·.inst == 1))
+  c19Loop kind (2 * evs.length + 1) 0 [] (evs.filter (·.inst == 0)) (evs.filter (·.inst == 1))
 
 /-- C20: after `clear()` (instance 0, prefix tagged `@pre`) versus a fresh instance -/
 def c20Loop : Nat → List Event → List Event → Verdict
-  | n, [], _ => .ok n
+  | n, [], _ => .ok n []
   | n, _ :: _, [] => .fail n "twin stream ended early"
   | n, e0 :: r0, e1 :: r1 =>
     if e0.op != e1.op then .fail n "streams out of step"
